@@ -56,7 +56,7 @@ func init() { Register(c03{}) }
 func (c03) ID() string       { return "C03" }
 func (c03) New() interface{} { return &C03Case{} }
 func (c03) Rule() string {
-	return "each run: a valid file (goalign's own writer on a generated alignment of 1-8 rows x 1-130 columns, or a corpus file with comments, TAXA/unsupported blocks, mark-up lines, CRLF line ends, several Phylip alignments, partition definitions) hit by 0-3 faults (truncation, structural-byte overwrite, bit flip, line loss / duplication / swap, header-number rewrite, token splice from another file, NUL / non-UTF8 byte, lone CR, read error at an offset), parsed by one of 13 parser entry points with a duplicate-name policy and a forced or automatic alphabet, delivered by the simulated stream in seeded fragments (1 byte, 2-7, per line, 4096, all, mixed; empty reads; EOF with or after the last data). Plus exhaustive sweeps: every prefix of every corpus file (both tiers) and every structural byte at every offset (thorough). Distinct = distinct (parser, options, stream content, error offset); non-trivial = at least one fault changed the stream or a read error lies inside it, and the stream is not empty."
+	return "each run: a valid file (goalign's own writer on a generated alignment of 1-8 rows x 1-130 columns, or a corpus file with comments, TAXA/unsupported blocks, mark-up lines, CRLF line ends, several Phylip alignments, partition definitions) hit by 0-3 faults (truncation, structural-byte overwrite, bit flip, line loss / duplication / swap, header-number rewrite, token splice from another file, NUL / non-UTF8 byte, lone CR, read error at an offset), parsed by one of 13 parser entry points with a duplicate-name policy and a forced or automatic alphabet, delivered by the simulated stream in seeded fragments (1 byte, 2-7, per line, 4096, all, mixed; empty reads; EOF with or after the last data). Plus exhaustive sweeps: every prefix of every corpus file and every number token rewritten to each of 11 special values (both tiers), every structural byte at every offset (thorough). Distinct = distinct (parser, options, stream content, error offset); non-trivial = at least one fault changed the stream or a read error lies inside it, and the stream is not empty."
 }
 
 var c03Parsers = []string{"fasta", "fasta-unalign", "phylip", "phylip-strict", "phylip-multi", "phylip-strict-multi", "nexus", "clustal", "stockholm", "partition", "auto", "auto-strict", "multi-auto"}
@@ -413,7 +413,11 @@ type c03EnumItem struct {
 	cut    int // prefix length, or -1
 	pos    int // overwrite position, or -1
 	ch     byte
+	numAt  int    // number token to rewrite (index among the number tokens), or -1
+	numVal string // its new value
 }
+
+var c03NumValues = []string{"0", "1", "2", "3", "300", "65536", "99999999999", "-3", "9223372036854775806", "9223372036854775807", "99999999999999999999"}
 
 var c03EnumCache = map[string][]c03EnumItem{}
 
@@ -441,7 +445,18 @@ func c03EnumList(tier string) []c03EnumItem {
 	for fi, f := range c03Corpus() {
 		for _, p := range c03ParsersFor(f.Format) {
 			for cut := 0; cut <= len(f.Content); cut++ {
-				out = append(out, c03EnumItem{file: fi, parser: p, cut: cut, pos: -1})
+				out = append(out, c03EnumItem{file: fi, parser: p, cut: cut, pos: -1, numAt: -1})
+			}
+		}
+	}
+	// every number token of every corpus file rewritten to every special value
+	for fi, f := range c03Corpus() {
+		locs := numTokRe.FindAllStringIndex(f.Content, -1)
+		for _, p := range c03ParsersFor(f.Format) {
+			for k := range locs {
+				for _, v := range c03NumValues {
+					out = append(out, c03EnumItem{file: fi, parser: p, cut: -1, pos: -1, numAt: k, numVal: v})
+				}
 			}
 		}
 	}
@@ -451,7 +466,7 @@ func c03EnumList(tier string) []c03EnumItem {
 			for pos := 0; pos < len(f.Content); pos++ {
 				for k := 0; k < len(c03Structural); k++ {
 					if f.Content[pos] != c03Structural[k] {
-						out = append(out, c03EnumItem{file: fi, parser: p, cut: -1, pos: pos, ch: c03Structural[k]})
+						out = append(out, c03EnumItem{file: fi, parser: p, cut: -1, pos: pos, ch: c03Structural[k], numAt: -1})
 					}
 				}
 			}
@@ -474,6 +489,13 @@ func (c03) EnumCase(tier string, i int) interface{} {
 			c.Faults = []string{fmt.Sprintf("trunc@%d", it.cut)}
 		}
 		if f.Decl != nil && it.cut >= f.HeaderEnd {
+			c.Decl, c.HeaderEnd = f.Decl, f.HeaderEnd
+		}
+	} else if it.numAt >= 0 {
+		l := numTokRe.FindAllStringIndex(f.Content, -1)[it.numAt]
+		c.Data = []byte(f.Content[:l[0]] + it.numVal + f.Content[l[1]:])
+		c.Faults = []string{fmt.Sprintf("num@%d=%s", l[0], it.numVal)}
+		if f.Decl != nil && l[0] >= f.HeaderEnd {
 			c.Decl, c.HeaderEnd = f.Decl, f.HeaderEnd
 		}
 	} else {
